@@ -31,6 +31,7 @@ import (
 
 const (
 	vX02Cap      = 10 * time.Second       // nothing is waited for longer than this
+	vX02Hang     = 40 * time.Second        // a step that takes longer is recorded as a hang (the process ends)
 	vX02Unserved = 500 * time.Millisecond // an answer is given up when the partition was not served for this long
 )
 
@@ -164,6 +165,7 @@ type vX02Run struct {
 	act    []time.Time  // per partition: lower bound of the last activity that re-arms the auto-pause timer
 	risky  []bool       // per partition: an activity arrived when the timer may already have decided to pause (the pause may still land)
 	objs   []*partition // partition objects seen at the end of the last step
+	lastSt vX02State    // the last projected state
 }
 
 func vX02Class(err error) (string, string) {
@@ -543,7 +545,74 @@ func vX02ReadLog(l commitlog.CommitLog) ([]int, error) {
 	}
 }
 
+func vX02ReadCopy(src string) ([]int, error) {
+	tmp, err := os.MkdirTemp("", "x02copy")
+	if err != nil {
+		return []int{}, err
+	}
+	defer os.RemoveAll(tmp)
+	entries, err := os.ReadDir(src)
+	if err != nil {
+		return []int{}, err
+	}
+	for _, e := range entries {
+		if e.IsDir() {
+			continue
+		}
+		info, err := e.Info()
+		if err != nil {
+			return []int{}, err
+		}
+		if info.Size() > 4<<20 {
+			return []int{}, fmt.Errorf("file %s of a closed log has %d bytes (index not shrunk)", e.Name(), info.Size())
+		}
+		b, err := os.ReadFile(filepath.Join(src, e.Name()))
+		if err != nil {
+			return []int{}, err
+		}
+		if err := os.WriteFile(filepath.Join(tmp, e.Name()), b, 0o644); err != nil {
+			return []int{}, err
+		}
+	}
+	l, err := commitlog.New(commitlog.Options{Path: tmp, CleanerInterval: 24 * time.Hour, HWCheckpointInterval: time.Hour})
+	if err != nil {
+		return []int{}, err
+	}
+	ids, err := vX02ReadLog(l)
+	if cerr := l.Close(); err == nil {
+		err = cerr
+	}
+	return ids, err
+}
+
+// state: the projection, repeated when a flag changed while it was taken (with a real auto-pause timer a pause
+// can land between two reads; a torn projection would describe a state that never existed)
 func (r *vX02Run) state(callStart time.Time, publishedOK int) vX02State {
+	for attempt := 0; ; attempt++ {
+		st := r.state1(callStart, publishedOK)
+		if r.auto == 0 || attempt >= 5 {
+			return st
+		}
+		same := true
+		if stream := r.srv.metadata.GetStream(r.stream); (stream != nil) != st.Exists || (stream != nil && stream.GetResumeAll() != st.RA) {
+			same = false
+		}
+		for p := 0; p < r.n && same; p++ {
+			if part := r.part(p); part != nil {
+				part.mu.RLock()
+				if part.paused != st.Paused[p] || part.isLeading != st.Leading[p] {
+					same = false
+				}
+				part.mu.RUnlock()
+			}
+		}
+		if same {
+			return st
+		}
+	}
+}
+
+func (r *vX02Run) state1(callStart time.Time, publishedOK int) vX02State {
 	st := vX02State{Subs: map[string]vX02SubSt{}}
 	stream := r.srv.metadata.GetStream(r.stream)
 	st.Exists = stream != nil
@@ -570,16 +639,9 @@ func (r *vX02Run) state(callStart time.Time, publishedOK int) vX02State {
 			ro = part.IsReadonly()
 			var err error
 			if paused || vX02LogGone(part.log) {
-				// the log of a paused partition is closed: read the files as a resume would open them
-				var l commitlog.CommitLog
-				l, err = commitlog.New(commitlog.Options{Path: filepath.Join(dir, strconv.Itoa(p)),
-					CleanerInterval: 24 * time.Hour, HWCheckpointInterval: time.Hour})
-				if err == nil {
-					ids, err = vX02ReadLog(l)
-					if cerr := l.Close(); err == nil {
-						err = cerr
-					}
-				}
+				// the log of a paused partition is closed: a COPY of its files is opened the way a resume
+				// would open them (the real files are never touched by the projection)
+				ids, err = vX02ReadCopy(filepath.Join(dir, strconv.Itoa(p)))
 			} else {
 				ids, err = vX02ReadLog(part.log)
 			}
@@ -726,12 +788,29 @@ func TestVerifX02(t *testing.T) {
 	cfg.CursorsStream.Partitions = 0
 	run := &vX02Run{t: t, cfg: cfg}
 	run.srv = vOneNodeServer(t, cfg)
-	defer func() { run.srv.Stop() }()
+	lastID := 0
+	defer func() {
+		// the server must stop: loops that never end are an observation, not a harness failure
+		done := make(chan struct{})
+		go func() {
+			select {
+			case <-done:
+			case <-time.After(vX02Hang):
+				tw.Emit(vX02Event{T: lastID, A: "Stop", Args: map[string]interface{}{}, St: run.lastSt,
+					Obs: vX02Obs{A: "Stop", Res: "hang", Ms: int(vX02Hang / time.Millisecond)}})
+				tw.w.Flush()
+				os.Exit(3)
+			}
+		}()
+		run.srv.Stop()
+		close(done)
+	}()
 	run.dial()
 	defer func() { run.conn.Close() }()
 
 	for _, b := range sf.Behaviours {
 		r := run
+		lastID = b.ID
 		r.id = b.ID
 		r.stream = fmt.Sprintf("x02-%d", b.ID)
 		r.n = int(vIntDef(b.Cfg, "parts", 2))
@@ -752,6 +831,7 @@ func TestVerifX02(t *testing.T) {
 		emit := func(a string, args map[string]interface{}, obs vX02Obs, callStart time.Time, pubOK int) {
 			r.settle()
 			ev := vX02Event{T: b.ID, A: a, Args: args, St: r.state(callStart, pubOK), Obs: obs}
+			r.lastSt = ev.St
 			ev.Wall = int(time.Since(t0) / time.Millisecond)
 			if a == "Open" {
 				ev.Cfg = map[string]interface{}{"auto": r.auto > 0, "dis": r.dis, "parts": r.n}
@@ -772,6 +852,19 @@ func TestVerifX02(t *testing.T) {
 			start := time.Now()
 			obs := vX02Obs{A: a}
 			pubOK := -1
+			// a step that does not come back (e.g. Server.Stop waiting for loops that never end) is an
+			// observation: the line is written from the last projected state and the process ends
+			stepDone := make(chan struct{})
+			go func(a string, args map[string]interface{}) {
+				select {
+				case <-stepDone:
+				case <-time.After(vX02Hang):
+					ev := vX02Event{T: b.ID, A: a, Args: args, St: r.lastSt, Obs: vX02Obs{A: a, Res: "hang", Ms: int(vX02Hang / time.Millisecond)}}
+					tw.Emit(ev)
+					tw.w.Flush()
+					os.Exit(3)
+				}
+			}(a, args)
 			switch a {
 			case "Publish":
 				p, m := int(vInt(step, "p")), int(vInt(step, "m"))
@@ -913,6 +1006,7 @@ func TestVerifX02(t *testing.T) {
 			}
 			obs.Ms = int(time.Since(start) / time.Millisecond)
 			emit(a, args, obs, start, pubOK)
+			close(stepDone)
 		}
 
 		// clean up: nothing of this behaviour keeps running
